@@ -419,8 +419,8 @@ fn same_bits(a: &[f32], b: &[f32]) -> bool {
 }
 
 pub fn net_oracles_learn(ctx: &mut Ctx, spec: &NetSpec, net: &Network, job: &LearnJob, res: &Result<(Vec<f32>, Vec<f32>, Vec<f32>), String>) {
-    let desc = format!("{} learn N={} B={} E={} val={} script={:?}", clip(&spec.token(), 800), job.xs.len(), job.batch, job.epochs,
-        job.val.as_ref().map_or("none".to_string(), |v| format!("{} samples, tolerance {}", v.0.len(), v.2)), job.script);
+    let desc = format!("{} learn N={} B={} E={} val={} script={:?} print={:?}", clip(&spec.token(), 800), job.xs.len(), job.batch, job.epochs,
+        job.val.as_ref().map_or("none".to_string(), |v| format!("{} samples, tolerance {}", v.0.len(), v.2)), job.script, job.print);
     let (tl, vl, va) = match res {
         Ok(v) => v,
         Err(c) => {
@@ -578,7 +578,7 @@ pub fn direct_c05(ctx: &mut Ctx) {
                 net::try_run(|| {
                     let mut n = net::build(spec).unwrap();
                     let job = LearnJob { xs: xs[..xs.len().min(24)].to_vec(), ts: ts[..ts.len().min(24)].to_vec(),
-                        val: Some((xs.clone(), ts.clone(), 5)), batch: 5, epochs: 2, script: vec![] };
+                        val: Some((xs.clone(), ts.clone(), 5)), batch: 5, epochs: 2, script: vec![], print: None };
                     let (tl, vl, va) = net::run_learn(&mut n, &job).unwrap();
                     let xr: Vec<&Tensor> = xs.iter().collect();
                     let tr: Vec<&Tensor> = ts.iter().collect();
@@ -613,6 +613,59 @@ pub fn direct_c05(ctx: &mut Ctx) {
             }
         }
     }
+    // many chunks: validate / predict_batch on several hundred samples (>= 5 chunks of 64, where a reduction
+    // performed on the parallel iterator would associate the partial sums schedule-dependently)
+    let many_sets = if thorough { 60 } else { 16 };
+    let mut many_jobs = Vec::new();
+    {
+        let mut g = Gen::new(ctx);
+        let cfg = ArchCfg { final_dense: Some(2), max_layers: 2, max_dim: 4, conv: false, deconv: false, pool: false, flat_input: Some(true), ..ArchCfg::small() };
+        for i in 0..many_sets {
+            let (mut spec, out) = random_net(&mut g, &cfg);
+            spec.obj = "mse".into();
+            let n = [583usize, 321, 1031, 449][i % 4];
+            let xs: Vec<Tensor> = (0..n).map(|_| input_for(&mut g, &spec.input)).collect();
+            let ts: Vec<Tensor> = (0..n).map(|_| target_for(&mut g, &out, &spec.obj)).collect();
+            many_jobs.push((spec, xs, ts));
+        }
+    }
+    for (spec, xs, ts) in many_jobs.iter() {
+        let run = |threads: usize, jitter: u64| -> Result<Vec<u32>, String> {
+            let pool = rayon::ThreadPoolBuilder::new().num_threads(threads).build().map_err(|e| e.to_string())?;
+            neurons::verif::set_jitter(jitter);
+            let r = pool.install(|| {
+                net::try_run(|| {
+                    let mut n = net::build(spec).unwrap();
+                    let xr: Vec<&Tensor> = xs.iter().collect();
+                    let tr: Vec<&Tensor> = ts.iter().collect();
+                    let (l, a) = n.validate(&xr, &tr, 0.1);
+                    let preds = n.predict_batch(&xr);
+                    let mut bits: Vec<u32> = vec![l.to_bits(), a.to_bits()];
+                    for p in preds.iter() { for v in p.get_flat() { bits.push(v.to_bits()); } }
+                    bits
+                })
+            });
+            neurons::verif::set_jitter(0);
+            r
+        };
+        let base = run(1, 0);
+        for &t in &[2usize, 3, 5, 16] {
+            for rep in 0..2u64 {
+                let r = run(t, if rep == 0 { 0 } else { ctx.seed.wrapping_mul(131).wrapping_add(rep * 977 + t as u64) | 1 });
+                evals += 1;
+                let same = match (&base, &r) {
+                    (Ok(a), Ok(b)) => a == b,
+                    (Err(a), Err(b)) => a == b,
+                    _ => false,
+                };
+                ctx.oracle(same, "schedule-dependent-result",
+                    "training, validation and batched prediction must give bit-identical results for every number of worker threads and every schedule",
+                    format!("validate / predict_batch of {} on {} samples, pool of {} threads, repetition {}", clip(&spec.token(), 600), xs.len(), t, rep),
+                    "bit patterns differ from the single-thread run".into(), "bit-identical".into());
+            }
+        }
+    }
+    ctx.notes.push(format!("{} small dense networks x 321..1031 samples x pools [1,2,3,5,16]: validate and predict_batch compared bit for bit with the single-thread run", many_jobs.len()));
     ctx.direct_evals += evals;
     ctx.direct_distinct += evals;
     ctx.notes.push(format!("{} networks x data-set sizes {:?} x pools {:?} x {} repetitions (jitter on from the 2nd): learn (E=2, B=5, with validation), validate, predict_batch compared bit for bit with the single-thread run", jobs.len(), sizes, pools, reps));
